@@ -222,6 +222,62 @@ Section Net.
         end
     end.
 
+  (* ---------------- constraint_current(..., linear=False), the default ----------------
+     angle_coeffs = exp(1j * deg2rad(self._phase_angles));  phasor = (X'.T * angle_coeffs).T;
+     return self.constraint_matrix[idx] @ phasor.
+     cos/sin of the registered angles are inputs (`trig`, one pair per entry of _phase_angles, computed by the
+     harness independently); the answer is the pair (real parts, imaginary parts).
+     numpy broadcasting of the (w x r) array X'.T with the length-a vector: fine when r = a; when r = 1 the single
+     row is repeated a times; when a = 1 the single coefficient multiplies every row; otherwise ValueError.
+     Statement order: phasor (ValueError) is computed before the matrix is subscripted (TypeError when None). *)
+  Definition bcast (X' : sched) (a : nat) : option sched :=
+    let r := List.length (xrows X') in
+    if Nat.eqb r a then Some X'
+    else if Nat.eqb r 1 then Some (mkSched (xw X') (repeat (hd [] (xrows X')) a))
+    else if Nat.eqb a 1 then Some X'
+    else None.
+
+  Definition bweights (r a : nat) (trig : list (A * A)) : list (A * A) :=
+    if Nat.eqb a 1 && negb (Nat.eqb r 1) then repeat (nth 0 trig (zero, zero)) r else trig.
+
+  (* sum_k row_k * (col_k * w_k) ; NaN is absorbing *)
+  Fixpoint dotw (row : list (option A)) (col w : list A) : option A :=
+    match row, col, w with
+    | m :: r, x :: c, u :: w' => omap2 add (omap2 mul m (Some (mul x u))) (dotw r c w')
+    | _, _, _ => Some zero
+    end.
+
+  Definition matmul_w (M : list (list (option A))) (Y : sched) (w : list A) : list (list (option A)) :=
+    map (fun row => map (fun j => dotw row (column Y j) w) (seq 0 (xw Y))) M.
+
+  Definition constraint_current_phase (X : sched) (C : option (list string)) (T : option (list Z))
+             (trig : list (A * A)) (n : net)
+    : res (list (list (option A)) * list (list (option A))) :=
+    let idx := constraint_indices C (cnames n) in
+    match (match T with
+           | None => Some X
+           | Some ts => match norm_indices (xw X) ts with
+                        | Some js => Some (take_cols X js)
+                        | None => None
+                        end
+           end) with
+    | None => Err "IndexError"%string
+    | Some X' =>
+        let a := List.length (angles n) in
+        match bcast X' a with
+        | None => Err "ValueError"%string
+        | Some Y =>
+            let w := bweights (List.length (xrows X')) a trig in
+            match cmat n with
+            | None => Err "TypeError"%string
+            | Some m =>
+                if negb (Nat.eqb (List.length (xrows Y)) (List.length (stations n))) then Err "ValueError"%string
+                else let M := map (fun i => nth i m []) idx in
+                     Ok (matmul_w M Y (map fst w), matmul_w M Y (map snd w))
+            end
+        end
+    end.
+
   (* ---------------- operation sequences ---------------- *)
   Inductive op : Type :=
   | ORegister (s : station) (v ph : Q)
@@ -330,6 +386,13 @@ Section Net.
   (* station ids of a list of registrations (station, voltage, angle) *)
   Definition reg_ids (regs : list (station * Q * Q)) : list station := map (fun p => fst (fst p)) regs.
 
+  (* sum_k a_k * (x_k * w_k) *)
+  Fixpoint lin_sum_w (a x w : list A) : A :=
+    match a, x, w with
+    | u :: a', v :: x', z :: w' => add (mul u (mul v z)) (lin_sum_w a' x' w')
+    | _, _, _ => zero
+    end.
+
 End Net.
 
 Arguments net A : clear implicits.
@@ -347,6 +410,7 @@ Open Scope Q_scope.
 
 Definition qnet := net Q.
 Definition qcc := constraint_current (A := Q) 0 Qplus Qmult Qabs.
+Definition qccp := constraint_current_phase (A := Q) 0 Qplus Qmult.
 
 (* equality of two query outcomes up to == on the numbers *)
 Definition oq_equiv (x y : option Q) : Prop :=
@@ -370,7 +434,8 @@ Inductive cop : Type :=
 | CRemove (name : string)
 | CUpdate (name : string) (e : cexpr Q) (limit : Q) (new_name : option string)
 | CSnap                                   (* record the whole state *)
-| CQuery (X : sched Q) (C : option (list string)) (T : option (list Z)).
+| CQuery (X : sched Q) (C : option (list string)) (T : option (list Z))
+| CQueryP (X : sched Q) (C : option (list string)) (T : option (list Z)) (trig : list (Q * Q)).   (* linear=False *)
 
 Definition qmatrix := list (list (option Q)).
 
@@ -379,7 +444,8 @@ Inductive obs : Type :=
 | BSnap (sts : list station) (vs phs : list Q) (mat : option qmatrix)
         (df_cols : list station) (df_idx : list string) (df_vals : qmatrix)
         (limits : list Q) (names : list string)
-| BQuery (r : res qmatrix).
+| BQuery (r : res qmatrix)
+| BQueryP (r : res (qmatrix * qmatrix)).
 
 Record c12case := {
   k_mode : inplace_mode;
@@ -393,7 +459,7 @@ Definition to_op (m : inplace_mode) (o : cop) : option (op Q) :=
   | CAdd e l nm => Some (OAdd (qdenote m e) l nm)
   | CRemove nm => Some (ORemove nm)
   | CUpdate nm e l nn => Some (OUpdate nm (qdenote m e) l nn)
-  | CSnap | CQuery _ _ _ => None
+  | CSnap | CQuery _ _ _ | CQueryP _ _ _ _ => None
   end.
 
 Definition observe (m : inplace_mode) (o : cop) (n : qnet) : obs * qnet :=
@@ -404,6 +470,7 @@ Definition observe (m : inplace_mode) (o : cop) (n : qnet) : obs * qnet :=
   | None =>
       match o with
       | CQuery X C T => (BQuery (qcc X C T n), n)
+      | CQueryP X C T trig => (BQueryP (qccp X C T trig n), n)
       | _ =>
           let df := constraints_as_df n in
           (BSnap (stations n) (volts n) (angles n) (cmat n) (f_cols df) (f_idx df) (f_rows df)
@@ -430,6 +497,8 @@ Definition obs_eqb (a b : obs) : bool :=
       && option_eqb qmatrix_eqb m1 m2 && list_eqb Nat.eqb c1 c2 && str_list_eqb i1 i2
       && qmatrix_eqb d1 d2 && qexact_list_eqb l1 l2 && str_list_eqb n1 n2
   | BQuery r1, BQuery r2 => res_eqb qmatrix_eqb r1 r2
+  | BQueryP r1, BQueryP r2 =>
+      res_eqb (fun a b => qmatrix_eqb (fst a) (fst b) && qmatrix_eqb (snd a) (snd b)) r1 r2
   | _, _ => false
   end.
 
